@@ -550,6 +550,11 @@ FMT = "pasfmt_core::formatter::"
 
 
 def check_c15(prog, rep, tier, cfg):
+    # C15.m — asking for cursors does not change the bytes that are printed: the encoding and BOM of what goes to stdout are chosen by
+    # `is_terminal()` and the decoded input alone, not by anything derived from the cursor list (shared with C16.f)
+    import orch as _orch15
+    from engine import AliasReport as _AR15
+    _orch15.c16f(prog, _AR15(rep, [("C16.f", r".", "C15.m")]))
     R = "C15.a"
     fib = prog.body(FMT + "Formatter::format_into_buf")
     if rep.check(fib is not None, R, "anchor:format_into_buf", "format_into_buf not found"):
